@@ -3,6 +3,7 @@ package rules
 import (
 	"fmt"
 	"go/types"
+	"strings"
 
 	"golang.org/x/tools/go/ssa"
 
@@ -171,6 +172,67 @@ func c06(w *core.World, r *core.Report) {
 		}
 		if n == 0 {
 			r.Viol("EXCLUSIVE", core.Site(register, "return while ongoing"), w.Pos(register.Pos()), "no return guarded by transactionOngoing()==true")
+		}
+	}
+
+	// ---- WHO-MAY-RELEASE
+	r.Rule("WHO-MAY-RELEASE", 4, "who-may-call: the functions that clear the open-transaction slot (store nil to TransactionManager.transaction, directly or through callees) are entered from outside package datastore/types only by Datastore.TransactionConfirm (Confirm), Datastore.TransactionCancel (Cancel) and by TransactionSet's deferred guard.Done(); the timer callback is the only other path. Decides: a further TransactionSet (or any other RPC) cannot release or replace an open transaction.")
+	{
+		cg := w.CG()
+		clears := map[*ssa.Function]bool{}
+		var work []*ssa.Function
+		for _, f := range w.RepoFns {
+			for _, st := range core.StoresToField(f, kTMSlot) {
+				if core.IsNilConst(st.Val) && !clears[f] {
+					clears[f] = true
+					work = append(work, f)
+				}
+			}
+		}
+		typesPkg := core.Module + "/pkg/datastore/types"
+		inTypes := func(f *ssa.Function) bool {
+			for f.Parent() != nil {
+				f = f.Parent()
+			}
+			return f.Pkg != nil && f.Pkg.Pkg.Path() == typesPkg
+		}
+		for len(work) > 0 {
+			f := work[0]
+			work = work[1:]
+			for _, e := range cg.In[f] {
+				if e.Kind == "ref" || !inTypes(e.Caller) {
+					continue
+				}
+				if !clears[e.Caller] {
+					clears[e.Caller] = true
+					work = append(work, e.Caller)
+				}
+			}
+		}
+		allowed := map[string]string{
+			"datastore.Datastore.TransactionConfirm -> datastore/types.TransactionManager.Confirm": "call",
+			"datastore.Datastore.TransactionCancel -> datastore/types.TransactionManager.Cancel":   "call",
+			"datastore.Datastore.TransactionSet -> datastore/types.TransactionGuard.Done":          "defer",
+			// arms the timer whose expiry (not the call) releases the transaction
+			"datastore.Datastore.lowlevelTransactionSet -> datastore/types.Transaction.StartRollbackTimer": "call",
+		}
+		n := 0
+		for f := range clears {
+			for _, e := range cg.In[f] {
+				if e.Kind == "ref" || inTypes(e.Caller) || strings.Contains(core.FuncKey(e.Caller), "mocks/") {
+					continue
+				}
+				n++
+				key := core.FuncKey(e.Caller) + " -> " + core.FuncKey(f)
+				how, ok := allowed[key]
+				if ok && how == "defer" {
+					_, ok = e.Site.(*ssa.Defer)
+				}
+				r.Check(ok, "WHO-MAY-RELEASE", key, w.InstrPos(e.Site), "only confirm, cancel, the timer and TransactionSet's own deferred guard may release the open transaction")
+			}
+		}
+		if n == 0 {
+			r.Viol("WHO-MAY-RELEASE", "callers", w.Pos(register.Pos()), "no caller releases a transaction")
 		}
 	}
 
